@@ -790,3 +790,62 @@ Example c12_nonvacuous_mixed_counters :
   let s := pmrun src_program mix_pc (concat (repeat [0; 1; 2] 40)) in
   pall_done mix_pc s = true /\ req (psh s) = 2 /\ proc (psh s) = 2 /\ length (calls (psh s)) = 3.
 Proof. split; [exact mix_classified|exact mix_example]. Qed.
+
+(* ---- ADAPTIVE requesters (round 5, second pass; C12/AdaptModel.v, C12/AdaptProofs.v): a task is a strategy — its next
+   lookup is a function of the answers it has received so far (the unwinder: which module the caller's frame lies in
+   depends on what the callee's module's symbols gave).  For every configuration of strategies that stop within N
+   lookups when they are given the supplier's scripted answers, every schedule and every per-poll fuel > N, the
+   adaptive run is, poll for poll, the run of C12/Model.v on the fixed lists [fixed_config N ac] (same shared state:
+   locks, remembered values, supplier log, counters, stats, results; same phase and the same finished tasks) — so
+   every theorem of C12 speaks about adaptive requesters. ---- *)
+From RM Require Import C12.AdaptModel C12.AdaptProofs.
+Theorem c12_adaptive_refines : forall (N : nat) (ac : aconfig) (fuel : nat) (sched : list task),
+  N < fuel -> Forall (fun sg => ends N (outc (abase ac)) sg [] = true) (astrats ac) ->
+  ash (arun fuel ac sched) = sh (run (fixed_config N ac) sched) /\
+  (forall t, aph (arun fuel ac sched) t = snd (pcs (run (fixed_config N ac) sched) t)) /\
+  (forall t, atask_done ac (arun fuel ac sched) t = task_done (run (fixed_config N ac) sched) t) /\
+  aall_done ac (arun fuel ac sched) = all_done (fixed_config N ac) (run (fixed_config N ac) sched).
+Proof. exact adaptive_refines_all. Qed.
+Print Assumptions c12_adaptive_refines.
+
+Theorem c12_adaptive_at_most_once : forall (N : nat) (ac : aconfig) (fuel : nat) (sched : list task) (k : key),
+  N < fuel -> Forall (fun sg => ends N (outc (abase ac)) sg [] = true) (astrats ac) ->
+  count_occ Nat.eq_dec (calls (ash (arun fuel ac sched))) k <= 1.
+Proof. exact adaptive_at_most_once_all. Qed.
+Print Assumptions c12_adaptive_at_most_once.
+
+Theorem c12_adaptive_same_outcome : forall (N : nat) (ac : aconfig) (fuel : nat) (sched : list task) (t : task) (i : nat)
+  (k : key) (o : outcome),
+  N < fuel -> Forall (fun sg => ends N (outc (abase ac)) sg [] = true) (astrats ac) ->
+  nth_error (results (ash (arun fuel ac sched)) t) i = Some (k, o) -> o = outc (abase ac) k.
+Proof. exact adaptive_same_outcome_all. Qed.
+Print Assumptions c12_adaptive_same_outcome.
+
+Theorem c12_adaptive_counters : forall (N : nat) (ac : aconfig) (fuel : nat) (sched : list task),
+  N < fuel -> Forall (fun sg => ends N (outc (abase ac)) sg [] = true) (astrats ac) ->
+  aall_done ac (arun fuel ac sched) = true ->
+  req (ash (arun fuel ac sched)) = distinct_keys (fixed_config N ac) /\
+  proc (ash (arun fuel ac sched)) = distinct_keys (fixed_config N ac) /\
+  forall k, In k (concat (tasks (fixed_config N ac))) -> count_occ Nat.eq_dec (calls (ash (arun fuel ac sched))) k = 1.
+Proof. exact adaptive_counters_all. Qed.
+Print Assumptions c12_adaptive_counters.
+
+(* non-vacuity: two requesters that ask for module 0 and then, depending on what they got, for module 1 (symbols) or
+   module 2 (none); module 0's symbol file is corrupt, so both go on to module 2 and module 1 is never asked for *)
+Definition ex_strat : strat :=
+  fun acc => match acc with
+             | [] => Some 0
+             | [(_, OOk)] => Some 1
+             | [_] => Some 2
+             | _ => None
+             end.
+Definition ex_ac : aconfig :=
+  {| astrats := [ex_strat; ex_strat];
+     abase := {| tasks := []; susp := fun k => 1; outc := fun k => if Nat.eqb k 0 then OParse else OOk; leaf := fun k => k |} |}.
+Example c12_nonvacuous_adaptive :
+  Forall (fun sg => ends 2 (outc (abase ex_ac)) sg [] = true) (astrats ex_ac) /\
+  tasks (fixed_config 2 ex_ac) = [[0; 2]; [0; 2]] /\
+  let s := arun 3 ex_ac [0; 1; 0; 1; 1; 0; 0; 1] in
+  aall_done ex_ac s = true /\ calls (ash s) = [0; 2] /\ req (ash s) = 2 /\ proc (ash s) = 2 /\
+  results (ash s) 0 = [(0, OParse); (2, OOk)] /\ results (ash s) 1 = [(0, OParse); (2, OOk)].
+Proof. split; [repeat constructor|]. vm_compute. repeat split. Qed.
